@@ -117,8 +117,10 @@ def enc_cases(chk):
         a = dict(w=w, h=h, n=n, bd=bd, content=content, recon=1, decode=0, seed=chk.seed * 1000 + i, watchdog=600)
         a["cfg.enc_mode"] = preset
         a["cfg.qp"] = qp
-        if lp or w < 128:          # finding F2: a one-superblock-wide picture must not be encoded multi-threaded
-            a["cfg.logical_processors"] = 1
+        # one worker per stage: the instruction set is independent of the thread count, and the encoder is not run-to-run
+        # deterministic with logical_processors >= 2 and TPL on (recorded finding C04-tpl-nondeterministic-lp2plus), which would
+        # show up here as a spurious difference between two flag sets
+        a["cfg.logical_processors"] = 1
         if chk.tier != "quick" and i % 5 == 4:
             a["cfg.rate_control_mode"] = 0
             a["cfg.enable_tpl_la"] = 0
